@@ -63,7 +63,26 @@ counts = st.one_of(st.integers(1, 4), st.integers(1, 4), st.integers(1, 4), st.i
                    st.sampled_from(COUNT_EDGES), st.integers(1, 300))
 
 
+_LIMITED = []
+
+
+def _limit_memory():
+    """safety net: a parser that loops on a garbage count (seen with mutants of the witness drain) must end in a
+    MemoryError (reported as crash:MemoryError) instead of eating the machine.  Once per process."""
+    if not _LIMITED:
+        _LIMITED.append(1)
+        try:
+            import resource
+            soft, hard = resource.getrlimit(resource.RLIMIT_AS)
+            cap = 6 * 2 ** 30
+            if soft == resource.RLIM_INFINITY or soft > cap:
+                resource.setrlimit(resource.RLIMIT_AS, (cap, hard))
+        except Exception:  # noqa
+            pass
+
+
 def _imports():
+    _limit_memory()
     import lbry.wallet  # noqa: F401
     from lbry.wallet.transaction import Transaction, Input, Output, TXORef
     from lbry.wallet.hash import TXRefImmutable
